@@ -85,16 +85,25 @@ def run(prog: Program, res: Result) -> None:
         bad("R1-params-before-trials", body[i_set[0]] if i_set else loop, f"{why}: trials run with another point's parameters",
             key="hypertuner.HyperTuner.execute::set_config_parameters-order")
     # the row records the same variable
-    rows = [n for n in ast.walk(loop) if isinstance(n, ast.Call) and dotted(n.func) == "best_fit_results.append"]
-    okr = len(rows) == 1 and isinstance(rows[0].args[0], ast.Dict) and any(
+    # the list handed to pd.DataFrame for _df_fit is the accumulator of rows
+    acc_name = None
+    for n in own_nodes(ex):
+        if isinstance(n, ast.Assign) and dotted(n.targets[0]) == "self._df_fit" and isinstance(n.value, ast.Call) \
+                and dotted(n.value.func) in ("pd.DataFrame", "pandas.DataFrame") and n.value.args and isinstance(n.value.args[0], ast.Name):
+            acc_name = n.value.args[0].id
+    rows = [n for n in ast.walk(loop) if isinstance(n, ast.Call) and isinstance(n.func, ast.Attribute) and n.func.attr == "append"
+            and isinstance(n.func.value, ast.Name) and n.func.value.id == acc_name and len(n.args) == 1]
+    row_dict = origin(ex.node, rows[0].args[0]) if len(rows) == 1 and isinstance(rows[0].args[0], ast.Name) else (rows[0].args[0] if len(rows) == 1 else None)
+    row_name = rows[0].args[0].id if len(rows) == 1 and isinstance(rows[0].args[0], ast.Name) else None
+    okr = isinstance(row_dict, ast.Dict) and any(
         isinstance(k, ast.Constant) and k.value == "params" and isinstance(v, ast.Name) and v.id == pvar
-        for k, v in zip(rows[0].args[0].keys, rows[0].args[0].values))
+        for k, v in zip(row_dict.keys, row_dict.values))
     res.ob(okr, f"{mod.relpath}: row records params={pvar}", "row-params")
     if not okr:
         bad("R1-row-records-point", rows[0] if rows else loop, "the result row does not record the grid point that was evaluated",
             key="hypertuner.HyperTuner.execute::row-params")
     # the table is built from rows collected in THIS call only: a fresh list per execute(), handed to DataFrame
-    acc = rows[0].func.value.id if rows and isinstance(rows[0].func.value, ast.Name) else None
+    acc = acc_name
     fresh = False
     if acc:
         defs = [st for st in ex.node.body if isinstance(st, (ast.Assign, ast.AnnAssign)) and st.lineno < loop.lineno
@@ -116,9 +125,9 @@ def run(prog: Program, res: Result) -> None:
         m = maps[0]
         okm = len(m.args) == 2
         if okm:
-            f0 = m.args[0]
+            f0 = origin(ex.node, m.args[0]) if isinstance(m.args[0], ast.Name) else m.args[0]
             okf = isinstance(f0, ast.Call) and dotted(f0.func) == "partial" and f0.args and dotted(f0.args[0]) == "self.__run__"
-            rng = m.args[1]
+            rng = origin(ex.node, m.args[1]) if isinstance(m.args[1], ast.Name) else m.args[1]
             inner = rng.args[0] if isinstance(rng, ast.Call) and isinstance(rng.func, ast.Name) and rng.func.id == "list" and rng.args else rng
             okn = isinstance(inner, ast.Call) and isinstance(inner.func, ast.Name) and inner.func.id == "range" and (
                 (len(inner.args) == 2 and isinstance(inner.args[0], ast.Constant) and inner.args[0].value == 0 and dotted(inner.args[1]) == "n_trials")
@@ -135,8 +144,9 @@ def run(prog: Program, res: Result) -> None:
         for n in ast.walk(inner_for[0]):
             if isinstance(n, ast.Assign) and isinstance(n.targets[0], ast.Subscript):
                 t = n.targets[0]
-                if isinstance(t.value, ast.Subscript) and dotted(t.value.value) == "best_fit_results" and norm(t.value.slice) == "-1" \
-                        and isinstance(t.slice, ast.Subscript) and dotted(t.slice.value) == "trial_columns" \
+                row_ok = (isinstance(t.value, ast.Subscript) and dotted(t.value.value) == acc_name and norm(t.value.slice) == "-1") or \
+                    (row_name is not None and dotted(t.value) == row_name)
+                if row_ok and isinstance(t.slice, ast.Subscript) and dotted(t.slice.value) == "trial_columns" \
                         and isinstance(t.slice.slice, ast.Name) and t.slice.slice.id == idx and dotted(n.value) == f"{best}.cost":
                     oks = True
         if any(isinstance(n, (ast.Break, ast.Continue)) for n in ast.walk(inner_for[0])):
@@ -147,9 +157,10 @@ def run(prog: Program, res: Result) -> None:
             "the cost of each returned trial is not stored in that trial's own column of the current row",
             key="hypertuner.HyperTuner.execute::trial-store")
     tc = None
-    for n in own_nodes(ex):
-        if isinstance(n, ast.Assign) and isinstance(n.targets[0], ast.Name) and n.targets[0].id == "trial_columns":
-            tc = n.value
+    from ..optmodel import simple_assigns
+    for (nm_, v_, _st) in simple_assigns(ex.node):
+        if nm_ == "trial_columns":
+            tc = v_
     oktc = isinstance(tc, ast.ListComp) and len(tc.generators) == 1 and not tc.generators[0].ifs and \
         norm(tc.generators[0].iter) in ("range(1, n_trials + 1)", "range(0, n_trials)", "range(n_trials)")
     res.ob(oktc, f"{mod.relpath}: trial_columns = {norm(tc) if tc is not None else None}", "trial-columns")
@@ -192,10 +203,13 @@ def run(prog: Program, res: Result) -> None:
                     return None
                 return None
             tmin, tmax = truth(vmin), truth(vmax)
-            if isinstance(n.value, ast.Compare):
+            nv = n.value
+            while isinstance(nv, ast.Call) and isinstance(nv.func, ast.Name) and nv.func.id == "bool" and len(nv.args) == 1:
+                nv = nv.args[0]
+            if isinstance(nv, ast.Compare):
                 from ..sgn import eval_test
-                tmin = eval_test(n.value, {"self._problem.minmax", "task.minmax"}, MIN)
-                tmax = eval_test(n.value, {"self._problem.minmax", "task.minmax"}, MAX)
+                tmin = eval_test(nv, {"self._problem.minmax", "task.minmax"}, MIN)
+                tmax = eval_test(nv, {"self._problem.minmax", "task.minmax"}, MAX)
             if tmin is not None and tmax is not None and tmin != tmax:
                 flags[n.targets[0].id] = (tmin, tmax)
     res.count("direction-flags", len(flags))
@@ -204,6 +218,8 @@ def run(prog: Program, res: Result) -> None:
 
     def col_of(e):
         """self._df_fit["x"] -> "x";  self._df_fit[["a","b"]] -> ["a","b"]; self._df_fit[trial_columns] -> "<trials>" """
+        if isinstance(e, ast.Name):
+            e = origin(ex.node, e)
         if isinstance(e, ast.Subscript) and dotted(e.value) == "self._df_fit":
             s = e.slice
             if isinstance(s, ast.Constant) and isinstance(s.value, str):
@@ -214,6 +230,32 @@ def run(prog: Program, res: Result) -> None:
                 return "<trials>"
         return None
 
+    def _strip_bool(v):
+        while isinstance(v, ast.Call) and isinstance(v.func, ast.Name) and v.func.id == "bool" and len(v.args) == 1:
+            v = v.args[0]
+        return v
+
+    def direction_truth(v):
+        """(value under MIN, value under MAX) of a boolean expression over the task direction, or None"""
+        from ..sgn import eval_test
+        v = _strip_bool(v)
+        dirs = {"self._problem.minmax", "task.minmax"}
+        try:
+            a_ = eval_expr(v, dirs, MIN)
+            b_ = eval_expr(v, dirs, MAX)
+        except Unknown:
+            return None
+
+        def truth(x, tt):
+            x = _strip_bool(x)
+            if isinstance(x, ast.Constant) and isinstance(x.value, bool):
+                return x.value
+            return eval_test(x, dirs, tt)
+        ta, tb = truth(a_, MIN), truth(b_, MAX)
+        if ta is None or tb is None:
+            return None
+        return (ta, tb)
+
     def asc_of(call):
         for k in call.keywords:
             if k.arg == "ascending":
@@ -222,6 +264,9 @@ def run(prog: Program, res: Result) -> None:
                     return ("const", bool(v.value))
                 if isinstance(v, ast.Name) and v.id in flags:
                     return ("flag", flags[v.id])
+                dt = direction_truth(origin(ex.node, v) if isinstance(v, ast.Name) else v)
+                if dt is not None:
+                    return ("flag", dt) if dt[0] != dt[1] else ("const", dt[0])
                 return ("unknown", norm(v))
         return ("const", True)
     best_row_src = None
@@ -240,6 +285,7 @@ def run(prog: Program, res: Result) -> None:
             if isinstance(v, ast.Call) and isinstance(v.func, ast.Attribute) and v.func.attr == "rank":
                 n_rank += 1
                 srcx = v.func.value
+                srcx = origin(ex.node, srcx) if isinstance(srcx, ast.Name) else srcx
                 kind, val = asc_of(v)
                 key = construct_key(prog, st, mod)
                 # rank of a single column
@@ -248,6 +294,10 @@ def run(prog: Program, res: Result) -> None:
                     ct = coltype.get(c)
                     if ct is None:
                         res.errors.append(f"rank() of untyped column {c}")
+                        continue
+                    if kind == "unknown":
+                        res.errors.append(f"`{norm(st, 90)}`: the `ascending` argument `{val}` is not understood (undecided)")
+                        coltype[tcol] = "RANK"
                         continue
                     if ct.startswith("RAW"):
                         ok = kind == "flag" and val == (True, False)
@@ -341,15 +391,19 @@ def run(prog: Program, res: Result) -> None:
             key="hypertuner.HyperTuner.execute::same-row")
     # ------------------------------------------------------------------ R5 resolve
     rs = prog.func(f"{HT}.resolve")
-    body = [st for st in rs.node.body if not (isinstance(st, ast.Expr) and isinstance(st.value, ast.Constant))]
-    okrs = len(body) == 2 and isinstance(body[0], ast.Expr) and isinstance(body[0].value, ast.Call) \
-        and dotted(body[0].value.func) == "self._algorithm.set_config_parameters" and len(body[0].value.args) == 1 \
-        and dotted(body[0].value.args[0]) in ("self.best_parameters", "self._best_params") \
-        and isinstance(body[1], ast.Return) and isinstance(body[1].value, ast.Call) and dotted(body[1].value.func) == "self._algorithm.optimize"
+    sets = [n for n in own_nodes(rs) if isinstance(n, ast.Call) and dotted(n.func) == "self._algorithm.set_config_parameters"]
+    opts_ = [n for n in own_nodes(rs) if isinstance(n, ast.Call) and dotted(n.func) == "self._algorithm.optimize"]
+    rets_ = [n for n in own_nodes(rs) if isinstance(n, ast.Return)]
+    okrs = len(sets) == 1 and len(opts_) == 1 and len(rets_) == 1 and sets[0].lineno < opts_[0].lineno
     if okrs:
-        c = body[1].value
+        a0 = sets[0].args[0] if sets[0].args else (sets[0].keywords[0].value if sets[0].keywords else None)
+        a0 = origin(rs.node, a0) if isinstance(a0, ast.Name) else a0
+        c = opts_[0]
         t = c.args[0] if c.args else {k.arg: k.value for k in c.keywords}.get("task")
-        okrs = dotted(t) == "self._problem"
+        t = origin(rs.node, t) if isinstance(t, ast.Name) else t
+        rv_ = origin(rs.node, rets_[0].value) if rets_[0].value is not None else None
+        okrs = dotted(a0) in ("self.best_parameters", "self._best_params") and dotted(t) == "self._problem" and rv_ is c \
+            and not any(isinstance(n, (ast.If, ast.For, ast.While, ast.Try)) for n in own_nodes(rs))
     res.ob(okrs, f"{rs.loc()} resolve(): set_config_parameters(best) then optimize(self._problem)", "resolve")
     if not okrs:
         bad("R5-resolve", rs.node, "resolve() does not apply the best parameters and then optimize the stored task",
